@@ -871,3 +871,64 @@ def check_dict_forward(prog, rep, rels, rule='CALL-dict-forward'):
                                   % (key_text(c)[:70], P, oname, g.name, P, P), c.lineno)
     rep.instance(rule, {'modules': list(rels), 'expansions_of_parameters': n})
     return n
+
+
+# ---------------------------------------------------------------------------------------------
+# ALIAS-ends: `x = C[-1]` read before `C[0] = ...` (or the other way round) and used afterwards.
+# The two ends of a sequence are the SAME element when it has one entry, so x is then the stale
+# value from before the store (MPO.from_grids on a single site projected the first grid and then
+# projected the unprojected copy of it as "last grid").
+def check_alias_ends(prog, rep, rels, rule='ALIAS-ends'):
+    import ast
+    from .core import unparse, stmts_of, key_text
+    ENDS = {'0', '-1'}
+
+    def scan(f):
+        out = []
+        sts = list(stmts_of(f))
+        for st in sts:
+            if not (isinstance(st, ast.Assign) and len(st.targets) == 1 and isinstance(
+                    st.targets[0], ast.Name) and isinstance(st.value, ast.Subscript) and
+                    isinstance(st.value.value, ast.Name) and unparse(st.value.slice) in ENDS):
+                continue
+            nm, C, idx = st.targets[0].id, st.value.value.id, unparse(st.value.slice)
+            other = ({'0', '-1'} - {idx}).pop()
+            for s2 in sts:
+                if s2.lineno <= st.lineno or not isinstance(s2, ast.Assign):
+                    continue
+                if not any(isinstance(t, ast.Subscript) and isinstance(t.value, ast.Name) and
+                           t.value.id == C and unparse(t.slice) == other for t in s2.targets):
+                    continue
+                rebinds = [s3 for s3 in sts if st.lineno < s3.lineno and isinstance(
+                    s3, ast.Assign) and any(isinstance(t, ast.Name) and t.id == nm
+                                            for t in s3.targets)]
+                uses = [u for u in ast.walk(f) if isinstance(u, ast.Name) and u.id == nm and
+                        isinstance(u.ctx, ast.Load) and u.lineno > s2.lineno and not any(
+                            s2.lineno <= r.lineno <= u.lineno for r in rebinds)]
+                if uses:
+                    out.append((st, s2, uses[0], nm, C, idx, other))
+        return out
+    fx = ast.parse("def f(grids, k):\n"
+                   "    first = grids[0]\n"
+                   "    last = grids[-1]\n"
+                   "    if len(first) > 1:\n"
+                   "        grids[0] = [first[k]]\n"
+                   "    if len(last[0]) > 1:\n"
+                   "        grids[-1] = [[r[k]] for r in last]\n"
+                   "    return grids\n").body[0]
+    rep.control(rule, [x[3] for x in scan(fx)] == ['last'])
+    n = 0
+    for rel in rels:
+        m = prog.module(rel)
+        rep.unit(m)
+        for q, f in m.functions.items():
+            n += 1
+            for st, s2, use, nm, C, idx, other in scan(f):
+                rep.violation(rule, m, q, 'stale-end:%s=%s[%s]' % (nm, C, idx),
+                              '`%s` reads %s[%s] before `%s` stores %s[%s], and `%s` is used '
+                              'afterwards (line %d): for a one-element %s both are the same entry '
+                              'and `%s` is the value from before the store'
+                              % (key_text(st)[:50], C, idx, key_text(s2)[:50], C, other, nm,
+                                 use.lineno, C, nm), st.lineno)
+    rep.instance(rule, {'modules': list(rels), 'functions_scanned': n})
+    return n
